@@ -90,7 +90,7 @@ class ValueTracer(TracerScenario):
                 return R("id", of=v.fields["ident"])
             if d == "len" and len(args) == 1:
                 return v.fields["n"]
-            callee = self.repo.resolve_callee(self.ri.cur_fi, call)
+            callee = self.ri.resolve(call, fval)
             if callee is not None and callee.fq == "monkeytype.typing.get_type":
                 st.effects.append(("get_type", v, kwargs.get("max_typed_dict_size", args[1] if len(args) > 1 else K("<missing>"))))
                 return T(v)
